@@ -487,7 +487,6 @@ static Janet cfun_sim_stats(int32_t argc, Janet *argv) {
     PUT("zombies", sim_child_zombie_count());
     PUT("threads", sim_thread_count_live());
     PUT("allocs", __atomic_load_n(&live_allocs, __ATOMIC_RELAXED));
-    PUT("bytes", __atomic_load_n(&live_bytes, __ATOMIC_RELAXED));
     PUT("threaded-abstracts", janet_vm.threaded_abstracts.count);
     PUT("active-tasks", janet_vm.active_tasks.count);
     PUT("sandbox", janet_vm.sandbox_flags);
@@ -736,12 +735,11 @@ static void parse_request(const char *path, Request *rq) {
 
 static void emit_stats(const char *when) {
     sim_hist("!stats", "%s t=%lld roots=%u blocks=%zu listeners=%d timers=%zu fds=%d children=%d zombies=%d threads=%d "
-             "allocs=%lld bytes=%lld vms=%d gcs=%llu",
+             "allocs=%lld vms=%d gcs=%llu",
              when, (long long) sim_now_ns(), (unsigned) janet_vm.root_count, janet_vm.block_count,
              (int) janet_atomic_load(&janet_vm.listener_count), janet_vm.tq_count, sim_open_fd_count(),
              sim_child_live_count(), sim_child_zombie_count(), sim_thread_count_live(),
-             (long long) __atomic_load_n(&live_allocs, __ATOMIC_RELAXED),
-             (long long) __atomic_load_n(&live_bytes, __ATOMIC_RELAXED), vm_live, (unsigned long long) gc_forced);
+             (long long) __atomic_load_n(&live_allocs, __ATOMIC_RELAXED), vm_live, (unsigned long long) gc_forced);
 }
 
 static int run_phase(const char *src, int idx) {
@@ -800,9 +798,8 @@ static int run_request(const char *reqpath, const char *outpath) {
     int status = 0;
     for (int i = 0; i < rq.nphases; i++) status |= run_phase(rq.phases[i], i);
     sim_cfg.active = 0;
-    sim_hist("!stats", "final allocs=%lld bytes=%lld vms=%d",
-             (long long) __atomic_load_n(&live_allocs, __ATOMIC_RELAXED),
-             (long long) __atomic_load_n(&live_bytes, __ATOMIC_RELAXED), vm_live);
+    sim_hist("!stats", "final allocs=%lld vms=%d",
+             (long long) __atomic_load_n(&live_allocs, __ATOMIC_RELAXED), vm_live);
     sim_probe_dump();
     sim_hist("!end", "0 yields=%llu switches=%llu sched=%016llx status=%d", (unsigned long long) sim_yield_count,
              (unsigned long long) sim_switch_count, (unsigned long long) sim_sched_trace_hash(), status);
